@@ -255,6 +255,11 @@ def _replay_profile(kind, h):
                     bad.append(f"signer is {sd['signer'][0]} {tnow - vals['last_full_certificate_time']:.3f} s after the certificate was last included (peer request pending={vals['requested_own_certificate']})")
                 if due and svc.cam_handler.last_signer_full_certificate_time != tnow:
                     bad.append("certificate timer not restarted at the inclusion")
+                if not due and svc.cam_handler.last_signer_full_certificate_time != vals["last_full_certificate_time"]:
+                    bad.append(f"certificate timer restarted ({vals['last_full_certificate_time']} -> {svc.cam_handler.last_signer_full_certificate_time}) by a message that did "
+                               "not carry the certificate: the next inclusion is measured from the previous message, not from the last inclusion")
+                if due and svc.cam_handler.requested_own_certificate:
+                    bad.append("pending peer request not cleared by the inclusion")
             if kind == "denm" and sd["signer"][0] != "certificate":
                 bad.append("DENM signed with a digest")
             if kind == "other" and sd["signer"][0] != "digest":
@@ -519,3 +524,12 @@ def router_encapsulation(ctx):
     ctx.bound("payload of 6 symbolic octets, signed message of 20 symbolic octets; SHB with CAM / VAM / generic profile, GBC with the DENM profile in both forwarding branches "
               "(area forwarding and greedy non-area forwarding, geometry and neighbours free)")
     ctx.stub("sign service returns an arbitrary secured message (its content is P1); location table / geometry as in C02")
+
+
+# ---------------------------------------------------------------------------------------------- P5 learning a ticket from a message
+@vc("C05", "P5-ticket-delivered-with-a-message-is-known-afterwards")
+def learnt_ticket(ctx):
+    """receiver side of 'accepted at once when the ticket is already known': the chain check of a certificate-signed message stores the
+    ticket it accepted (chains of one and two certificates, arbitrary certificate contents and trust store)"""
+    from .c09 import _chains
+    _chains(ctx, True)
